@@ -53,6 +53,16 @@ pub fn verif_root() -> PathBuf {
         .unwrap_or_else(|| PathBuf::from("/verif"))
 }
 
+/// A wall-clock budget of `base_secs` on an idle machine, stretched by how busy the machine is right now
+/// (1-minute load average per core, at most 6x): budgets exist to bound a run, not to turn a complete
+/// exploration into a capped one when other work shares the cores.
+pub fn budget_secs(base_secs: u64) -> u64 {
+    let load = std::fs::read_to_string("/proc/loadavg").ok().and_then(|s| s.split_whitespace().next().and_then(|x| x.parse::<f64>().ok())).unwrap_or(0.0);
+    let cores = std::thread::available_parallelism().map(|n| n.get()).unwrap_or(1) as f64;
+    let factor = (1.0 + load / cores).clamp(1.0, 6.0);
+    (base_secs as f64 * factor) as u64
+}
+
 pub struct Ctx {
     pub id: &'static str,
     pub tier: Tier,
